@@ -178,6 +178,7 @@ ArgsOf(e) ==
 MemoKey(e) == Has(e, "argid") /\ e.argid \in DOMAIN memo
 Inv_C13(e) ==
     /\ (e.op = "ByEntropy" => e.ent_same)
+    /\ (Has(e, "in_same") => e.in_same)                      \* argument strings are not written through
     /\ (e.op = "Recheck" => e.same)
     /\ (e.op = "Buf" => e.before = e.after)
     /\ (MemoKey(e) /\ memo[e.argid][1] = ArgsOf(e) => memo[e.argid][2] = ResultOf(e))
@@ -238,7 +239,7 @@ Drift(e) ==
         ELSE {})
     \cup (IF e.op = "MapLens" /\ \E x \in Langs : e.lens[x + 1] # (IF mapv[x] = "full" THEN 2048 ELSE 0)
         THEN {<<l, "map sizes differ from Layer S">>} ELSE {})
-    \cup (IF e.op = "Read" /\ pc = "reading" /\ e.asked # need - Len(delivered)
+    \cup (IF e.op = "Read" /\ pc = "reading" /\ source # "bufio" /\ e.asked # need - Len(delivered)
         THEN {<<l, "Read asked for a different number of bytes than io.ReadFull would">>} ELSE {})
     \cup (IF e.op = "NewMnemonic" /\ BigOK(e.n) /\ ReadFullOK /\ lastErr # "" /\ ~e.err.nil
         THEN {<<l, "failure although the final fragment completed the buffer">>} ELSE {})
